@@ -2,7 +2,7 @@
    no legacy switch and no refutation of the code here; the last example shows
    that the injectivity hypothesis of the cache/token theorems is needed. *)
 From Coq Require Import ZArith List Bool.
-From Verif Require Import C07.Model C07.Proofs C07.Timed.
+From Verif Require Import C07.Model C07.Proofs C07.Timed C07.World.
 Import ListNotations.
 Open Scope Z_scope.
 
@@ -461,3 +461,84 @@ Example ex_timed_steps :
                   (([([97], (mkCore true ASuccess false None, 0))], brk0), []) (mkReq [97] 1 VBlock VBlock) (mkDl 2 2)
                 = (x, EvReturned slow_id (mkReq [97] 1 VBlock VBlock) rp true)).
 Proof. vm_compute. repeat split; try reflexivity; do 2 eexists; reflexivity. Qed.
+
+(* ---- agents at large: labelled proteins, exceptions that are not Exceptions ---- *)
+
+Definition wshape (e : wev) :=
+  match e with
+  | WvOp e' => match rreply (snd e') with
+               | Some (_, _, r) => (0, r_cached r, c_blocked (r_core r),
+                                    match c_token (r_core r) with Some t => tk_issuer t | None => [] end)
+               | None => (1, false, false, [])
+               end
+  | WvPropagated _ _ _ who _ => (2, who, false, [])
+  end.
+
+(* c07_world_pass_only_if / c07_world_cache_same_verdict / c07_world_token_bound / c07_world_labels_are_inert:
+   OR logic, assessor "Y" (89), ttl 5.  The assessor's PERMIT protein says it comes from "T" (84): the reply
+   passes with a token whose issuer is "Y"; the executor's KeyboardInterrupt at a second prompt: no reply,
+   nothing stored (the same prompt is decided afresh afterwards - and blocked); the first prompt is
+   served from the cache while an aborting request for it asks nobody (the usual reply); after the TTL the
+   assessor raises at it: no reply, and the expired entry is gone. *)
+Definition cf_wor := mkConfig LOr [89] true 5 1000.
+
+Definition whist1 : list wop :=
+  [ WLabelled None (Some [84]) (TPlain (RX (XAtomic (OReq (mkReq [97] 0 VBlock VPermit)))));
+    WAbort (mkReq [98] 1 VUnknown VUnknown) false;
+    WPlain (TPlain (RX (XAtomic (OReq (mkReq [98] 2 VBlock VBlock)))));
+    WAbort (mkReq [97] 3 VUnknown VUnknown) false;
+    WAbort (mkReq [97] 6 VExecute VUnknown) true;
+    WPlain (TPlain (RX (XAtomic (OReq (mkReq [97] 7 VBlock VBlock))))) ].
+
+Example ex_world_history :
+  map wshape (wtrace hash_x (fun p => p) 30 cf_wor bc_off whist1)
+  = [ (0, false, false, [89]); (2, false, false, []); (0, false, true, []); (0, true, false, [89]);
+      (2, true, false, []); (0, false, true, []) ] /\
+  wtrace hash_x (fun p => p) 30 cf_wor bc_off (map unlabel whist1) = wtrace hash_x (fun p => p) 30 cf_wor bc_off whist1 /\
+  wtrace hash_x (fun p => p) 30 cf_wor bc_off (map (relabel (fun _ => Some [89])) whist1)
+  = wtrace hash_x (fun p => p) 30 cf_wor bc_off whist1 /\
+  spec_pass LOr VBlock VPermit = true /\ spec_pass LOr VBlock VBlock = false.
+Proof. vm_compute. repeat split; reflexivity. Qed.
+
+(* Had the issuer been taken from the protein's label, the first token of [whist1] would name "T". *)
+Example ex_world_label_issuer_would_violate :
+  Verif.Common.Corr.zl_eqb [84] (cf_assessor cf_wor) = false /\
+  (exists t, c_token (outcome hash_x cf_wor (mkReq [97] 0 VBlock VPermit)) = Some t /\ tk_issuer t = [89]).
+Proof. vm_compute. split; [reflexivity | eexists; split; reflexivity]. Qed.
+
+(* c07_world_abort_leaves_no_reply: hypotheses met, both disjuncts (served from the cache / no reply at all);
+   an assessor that would raise is never reached when the executor raised an Exception: the plain blocked ERROR *)
+Example ex_world_abort_steps :
+  assessor_reached (mkReq [97] 0 VExecute VUnknown) true = false /\
+  assessor_reached (mkReq [97] 0 VRaised VUnknown) true = true /\
+  (exists t' n, wstep hash_x (fun p => p) (30, (cf_wor, bc_off, x0)) (WAbort (mkReq [97] 0 VExecute VUnknown) true)
+                = (t', WvPropagated 30 cf_wor bc_off true n)) /\
+  (exists t' rp, wstep hash_x (fun p => p)
+                   (30, (cf_wor, bc_off, (([([97], (mkCore true ASuccess false None, 0))], brk0), [])))
+                   (WAbort (mkReq [97] 1 VExecute VUnknown) true)
+                 = (t', WvOp (30, RvOp cf_wor bc_off (EvReturned abort_id (mkReq [97] 1 VExecute VUnknown) rp true)))) /\
+  map wshape (wtrace hash_x (fun p => p) 30 cf_wor bc_off [WAbort (mkReq [97] 0 VRaised VUnknown) true])
+  = [ (0, false, true, []) ].
+Proof. vm_compute. repeat split; try reflexivity; do 2 eexists; reflexivity. Qed.
+
+(* c07_world_end_abort_leaves_no_reply: a request in flight whose assessor raises SystemExit: no reply, it is no
+   longer in flight (a second end finds nothing), the prompt is decided afresh afterwards; the breaker
+   (threshold 1) was told nothing: the next request is admitted.  c07_world_loops_isolated /
+   c07_world_plain_is_timed on concrete histories. *)
+Definition whist2 : list wop :=
+  [ WPlain (TPlain (RX (XBegin 0 (mkReq [97] 0 VExecute VUnknown))));
+    WEndAbort 0 1 true;
+    WEndAbort 0 2 true;
+    WPlain (TPlain (RX (XAtomic (OReq (mkReq [97] 3 VBlock VPermit))))) ].
+
+Example ex_world_in_flight :
+  map wshape (wtrace hash_x (fun p => p) 30 cf_wor (mkBcfg true 1 60) whist2)
+  = [ (1, false, false, []); (2, true, false, []); (1, false, false, []); (0, false, false, [89]) ] /\
+  pending_find 0 [(0, mkReq [97] 0 VExecute VUnknown)] = Some (mkReq [97] 0 VExecute VUnknown) /\
+  wtrace hash_x (fun p => p) 2 cf_xp bc_off (map WPlain thist1) = map WvOp (ttrace hash_x (fun p => p) 2 cf_xp bc_off thist1) /\
+  proj true (wsys_trace hash_x (fun p => p) 1 2 cf_or cf_wor bc_off bc_off
+               [ (true, WAbort (mkReq [97] 0 VUnknown VUnknown) false); (false, WAbort (mkReq [97] 0 VExecute VUnknown) true);
+                 (true, WPlain (TSlow (mkReq [97] 1 VExecute VBlock) (mkDl 5 5))) ])
+  = wtrace hash_x (fun p => p) 2 cf_wor bc_off
+      [WAbort (mkReq [97] 0 VUnknown VUnknown) false; WPlain (TSlow (mkReq [97] 1 VExecute VBlock) (mkDl 5 5))].
+Proof. vm_compute. repeat split; reflexivity. Qed.
